@@ -184,6 +184,8 @@ impl LogServerClient {
         header: &[u8],
     ) -> Result<(), MonorailError> {
         let mut guard = self.stream.lock().await;
+        #[cfg(pnordahl_monorail_verif)]
+        crate::verif::point("log.stream.locked");
         guard.write_all(header).await.map_err(MonorailError::from)?;
         for v in data.iter() {
             guard.write_all(v).await.map_err(MonorailError::from)?;
